@@ -72,4 +72,46 @@ static inline _Bool spl_rec(struct vec_us A, struct map_pair_U_U_idl_distancep m
     }
   return 1;
 }
+/* ---- the enforced constraints ARE the ghost edges (link invariant), and a conflict explanation is a negative cycle ---- */
+/* constraint c, under the current assignment, is the edge k --w--> j:  true literal: to - from <= dist is edge from -> to;
+ * false literal: its integer negation from - to <= -dist - 1 is edge to -> from */
+static inline _Bool spl_owner_ok(struct vec_us A, struct smt_idl_theory_idl_distance *c, U_t k, U_t j, I_t w)
+{
+  if (c == 0) return 0;
+  int v = spl_value(A, c->b);
+  if (v == SPL_TRUE) return c->from == k && c->to == j && c->dist == w;
+  if (v == SPL_FALSE) return c->to == k && c->from == j && -(WIDE_t)c->dist - 1 == (WIDE_t)w;
+  return 0;
+}
+static inline _Bool spl_link(struct vec_us A, struct map_pair_U_U_idl_distancep m, struct vec_vec_I E)
+{
+  for (U_t k = 0; k < XT_N; k++)
+    for (U_t j = 0; j < XT_N; j++)
+      if (k != j && E.e[k].e[j] != XT_INF && !spl_owner_ok(A, spl_lookup_C(m, k, j), k, j, E.e[k].e[j])) return 0;
+  return 1;
+}
+/* the clause c is exactly: for every hop (k -> cur) of the predecessor walk of row src back from dst, the currently false
+ * form of the literal of the constraint enforced on that pair, then !p; the hops' ghost weights sum to D[src][dst], and
+ * together with the closing edge (weight `closing`, dst -> src) the cycle is negative */
+static inline _Bool spl_explains(struct vec_us A, struct map_pair_U_U_idl_distancep m, struct vec_vec_U P, struct vec_vec_I E, struct vec_vec_I D,
+                                 U_t src, U_t dst, I_t closing, struct vec_lit c, struct smt_lit p)
+{
+  U_t cur = dst, n = 0;
+  WIDE_t sum = 0;
+  for (U_t s = 0; s < XT_N; s++)
+    if (cur != src)
+    {
+      U_t k = P.e[src].e[cur];
+      if (k >= XT_N) return 0;
+      struct smt_idl_theory_idl_distance *o = spl_lookup_C(m, k, cur);
+      if (o == 0) return 0;
+      U_t want = spl_value(A, o->b) == SPL_TRUE ? (U_t)(o->b.x ^ 1) : o->b.x;
+      if (n >= c.n || c.e[n].x != want) return 0;
+      sum += (WIDE_t)E.e[k].e[cur];
+      n++;
+      cur = k;
+    }
+  if (cur != src) return 0;
+  return c.n == n + 1 && c.e[n].x == (p.x ^ 1) && sum == (WIDE_t)D.e[src].e[dst] && sum + (WIDE_t)closing < 0;
+}
 #endif
